@@ -176,6 +176,10 @@ type c04PoolCfg struct {
 	WithWeights bool     `json:"withWeights"` // write weight fields into the YAML
 	ServiceName string   `json:"serviceName"`
 	ServerTags  []string `json:"serverTags"`
+	// only set by the retry monitor (c04_retry_test.go): name of the injected retry policy
+	// and the pool's failureCodes.
+	RetryPolicy  string `json:"retryPolicy,omitempty"`
+	FailureCodes []int  `json:"failureCodes,omitempty"`
 }
 
 func (c *c04PoolCfg) raw() map[string]interface{} {
@@ -200,6 +204,16 @@ func (c *c04PoolCfg) raw() map[string]interface{} {
 	}
 	if len(svrs) > 0 {
 		pool["servers"] = svrs
+	}
+	if c.RetryPolicy != "" {
+		pool["retryPolicy"] = c.RetryPolicy
+	}
+	if len(c.FailureCodes) > 0 {
+		fc := []interface{}{}
+		for _, x := range c.FailureCodes {
+			fc = append(fc, x)
+		}
+		pool["failureCodes"] = fc
 	}
 	lb := map[string]interface{}{}
 	if c.Policy != "" {
